@@ -94,6 +94,7 @@ class SAMIReader(BaseReader):
         global_layout = self._build_layout(doc_styles.get('p', {}))
 
         caption_dict = {}
+        self._doc_langs = list(doc_langs)
         for language in doc_langs:
             lang_layout = None
             for target, styling in list(doc_styles.items()):
@@ -193,6 +194,11 @@ class SAMIReader(BaseReader):
         milliseconds = 0
 
         for p in sami_soup.select(f'p[lang|={language}]'):
+            # lang|=en also matches en-US: a paragraph whose language is
+            # itself one of the document's languages belongs to that one only
+            if (p.get('lang') != language
+                    and p.get('lang') in getattr(self, '_doc_langs', ())):
+                continue
             start_str = p.parent.get('start')
             if not start_str:
                 raise CaptionReadTimingError(
